@@ -768,6 +768,43 @@ Section Packets.
     - eapply Forall_impl; [|exact Hs]. exact req_codec_ok_full.
     - eapply Forall_impl; [|exact Hwr]. exact rsp_codec_ok_full.
   Qed.
+
+  (* ----- concurrent callers, at the level of CALL RESULTS: what a caller of the generated proxy gets when its request
+     travels together with any other requests of the proxy (any order, any segmentation, replies in any order) is what
+     the same call returns alone ----- *)
+  Definition conc_result (chunks_p : list bytes) (f : fsig) (args : list val) (o : opts) (q : reqpkt) : call_res :=
+    proxy_finish e f args o
+      (if is_oneway q then VOneWay
+       else match client_conn e sid_rsp max_pkt chunks_p (q_id q) with Some p => map_reply p | None => VLost end).
+
+  Theorem concurrent_calls (Pc Ps : pfilters ev unit) i (qs sent : list reqpkt) (chunks_q : list bytes)
+          (written : list rsppkt) (chunks_p : list bytes) :
+    Permutation.Permutation sent qs -> NoDup (map q_id qs) ->
+    Forall req_sendable sent ->
+    concat chunks_q = concat (map (enc_req e sid_req) sent) ->
+    Permutation.Permutation written (server_conn e sid_req max_pkt impl (filters_of disp_res Ps) i chunks_q) ->
+    Forall rsp_sendable written ->
+    concat chunks_p = concat (map (enc_rsp e sid_rsp) written) ->
+    forall f args o ow id sv t, In (mkreq e f args o ow id sv t) qs ->
+      conc_result chunks_p f args o (mkreq e f args o ow id sv t) =
+      fst (call e sid_req sid_rsp max_pkt impl (filters_of inv_res Pc) (filters_of disp_res Ps) i f args o ow id sv t).
+  Proof.
+    intros Hperm Hnd Hs Hcq Hw Hwr Hcp f args o ow id sv t Hin.
+    set (q := mkreq e f args o ow id sv t) in *.
+    pose proof (concurrent_closed Ps i qs sent chunks_q written chunks_p Hperm Hnd Hs Hcq Hw Hwr Hcp q Hin) as Hc.
+    assert (Hqs : In q sent) by (eapply Permutation.Permutation_in; [apply Permutation.Permutation_sym, Hperm|exact Hin]).
+    assert (Hq : req_sendable q) by (rewrite Forall_forall in Hs; now apply Hs).
+    rewrite call_pass. cbn [fst]. unfold conc_result. f_equal. fold q.
+    unfold inv_result. rewrite (wire_ok_req_full q (proj1 Hq) (proj2 Hq)).
+    destruct (is_oneway q); [reflexivity|]. rewrite Hc.
+    destruct (srv_reply e impl i q) as [p|] eqn:Hr; [|reflexivity].
+    assert (Hp : rsp_sendable p).
+    { rewrite Forall_forall in Hwr. apply Hwr. eapply Permutation.Permutation_in; [apply Permutation.Permutation_sym, Hw|].
+      rewrite (EndToEndConc.server_conn_sent e sid_req max_pkt impl Ps i sent chunks_q); [|eapply Forall_impl; [|exact Hs]; exact req_codec_ok_full|exact Hcq].
+      apply in_flat_map. exists q. split; [exact Hqs|]. rewrite Hr. now left. }
+    rewrite (wire_ok_rsp_full p (proj1 Hp) (proj2 Hp)).
+    rewrite (EndToEndConc.reply_id e impl i q p Hr), Z.eqb_refl. reflexivity.
+  Qed.
 End Packets.
 
 (* ---------- the value clause for ANY content of the caller's out variables, as a closed statement (proved in
